@@ -162,8 +162,16 @@ def depth1(atoms, keys, small):
     return out
 
 
+def excluded_atoms():
+    """Atoms excluded by construction because of an *open* known finding (counted in evidence)."""
+    if "digest-string" in common.open_features(ID):
+        return [_HEX_A]
+    return []
+
+
 def enumerate_values(tier):
-    atoms = list(ATOMS)
+    ex = excluded_atoms()
+    atoms = [a for a in ATOMS if not (isinstance(a, str) and a in ex)]
     small = SMALL if tier == "thorough" else SMALL[:9]
     d1 = depth1(atoms, KEYS, small)
     vals = list(atoms) + d1
@@ -269,6 +277,9 @@ def shard_enum(idx, n, tier, seed):
             )
     ev.extra["determinism_checked"] = len(sample)
     ev.extra["enumerated_total"] = len(vals) if idx == 0 else 0
+    if idx == 0:
+        for a in excluded_atoms():
+            ev.excluded["digest-string:" + a[:12]] += 1
     ev.exhaustive = True
     return ev, None
 
@@ -276,8 +287,9 @@ def shard_enum(idx, n, tier, seed):
 def value_strategy():
     from hypothesis import strategies as st
 
+    ex = excluded_atoms()
     atoms = st.one_of(
-        st.sampled_from(ATOMS),
+        st.sampled_from([a for a in ATOMS if not (isinstance(a, str) and a in ex)]),
         st.integers(),
         st.integers(min_value=-(2 ** 70), max_value=2 ** 70),
         st.floats(allow_nan=True, allow_infinity=True),
@@ -309,10 +321,11 @@ def shard_random(idx, n, tier, seed, count):
     seen = []
 
     def check(v):
+        j = enc(v)
+        v = dec(j)  # the replayable form is the case (drops e.g. the `fold` attribute of times)
         res = hash_value(dds_hash, DDSException, codes, v)
         check_supported_result(v, res)
         nt = nontrivial(v)
-        j = enc(v)
         ev.case(j, bool(nt), features=["rand:" + f for f in (nt or ["plain"])])
         if res[0] == "sig":
             c = json.dumps(canon(v), sort_keys=True)
